@@ -901,6 +901,35 @@ pub fn run(ctx: &mut Ctx, eng: &mut dyn Engine) {
     one_case(ctx, eng, "w-d22", &Cfg { scheme: "raptor", b: 8, len: 21, ..base.clone() }, "witness");
     one_case(ctx, eng, "w-d23", &Cfg { scheme: "raptor", len: 20, ..base.clone() }, "witness");
 
+    // 0b. field-width boundaries: many blocks (SBN >= 256), long blocks (ESI >= 256), widest RS blocks, largest symbols,
+    //     objects at / just above the scheme's maximum transfer length -------------------------------------------------
+    let bcases: Vec<(&'static str, u64, u64, u64, u64, u64)> = vec![
+        // scheme, E, B, parity, window, L
+        ("nocode", 1, 1, 0, 3, 700),
+        ("nocode", 1, 3000, 0, 2, 3000),
+        ("nocode", 2, 300, 0, 2, 1500),
+        ("nocode", 65535, 2, 0, 2, 140000),
+        ("rs28", 1, 1, 1, 4, 255),
+        ("rs28", 1, 1, 1, 4, 256),
+        ("rs28", 1, 250, 5, 2, 600),
+        ("rs28", 3, 254, 1, 1, 800),
+        ("rs28us", 2, 1, 2, 3, 1200),
+        ("rs28us", 1, 251, 5, 2, 600),
+        ("rs28us", 1, 252, 5, 2, 252),
+        ("rs28us", 1, 400, 5, 2, 250),
+        ("raptorq", 1, 1, 1, 2, 255),
+        ("raptorq", 1, 1, 1, 2, 256),
+        ("raptorq", 4, 300, 3, 2, 2400),
+        ("raptor", 1, 1, 1, 2, 300),
+        ("raptor", 4, 300, 2, 2, 2400),
+    ];
+    for (i, (scheme, e, b, p, win, len)) in bcases.iter().enumerate() {
+        for src in ["buf".to_string(), format!("chk:f{}", 7.max(*len / 40))] {
+            let c = Cfg { scheme, e: *e, b: *b, p: *p, win: *win, maxtc: 1 + (i as u64 % 2), allow: false, car: false, cenc: "null", src: src.clone(), seed: 500 + i as u64, len: *len };
+            one_case(ctx, eng, &format!("bound-{}-{}", i, src.split(':').next().unwrap_or("")), &c, "boundary");
+        }
+    }
+
     // 1. the grid ------------------------------------------------------------------------------------
     let mut n = 0u64;
     for scheme in schemes {
